@@ -17,3 +17,22 @@ CHECKS["C14"] = {
          "what": "complexity.safeAdd vs saturating reference, all 2^128 operand pairs (64-bit bit-vectors, no bound)"},
     ],
 }
+
+CHECKS["C08"] = {
+    "assumptions": [],
+    "harnesses": [
+        {"pkg": "graphql", "harness": "Harness_C08_writeQuotedString", "reach": ["quoted.checked"],
+         "quick": {"params": {"n": 3}, "workers": 8}, "thorough": {"params": {"n": 4}, "workers": 14},
+         "what": "writeQuotedString on every byte string of length n: RFC 8259 token, RFC 3629 validity, decode = input with U+FFFD"},
+    ],
+}
+
+CHECKS["C10"] = {
+    "assumptions": [],
+    "harnesses": [
+        {"pkg": "graphql/handler/transport", "harness": "Harness_C10_bytesReader", "reach": ["reader.seek", "reader.read"],
+         "what": "bytesReader Read/Seek, arbitrary 64-bit position/offset/whence, len 0..3, two operations from an arbitrary valid state"},
+        {"pkg": "graphql", "harness": "Harness_C10_AddUpload", "reach": ["upload.stored", "upload.rejected"],
+         "what": "RawParams.AddUpload over variables trees of depth <= 2 x paths of 1-2 segments from a 7-segment corpus"},
+    ],
+}
